@@ -56,6 +56,14 @@ def getStr? (t : DM K) (k : String) : Option String :=
 
 end DM
 
+/-- `[f x for x in l]` where `f` may raise. -/
+def mapOpt {α β : Type} (f : α → Option β) : List α → Option (List β)
+  | [] => some []
+  | a :: l =>
+    match f a, mapOpt f l with
+    | some b, some bs => some (b :: bs)
+    | _, _ => none
+
 /-- the effect of `d.append(key, v)` for each `v` in turn on a dictionary that has no `key` yet:
     nothing, a single value, or a list. -/
 def appendAll (k : String) : List (DM K) → List (String × DM K)
@@ -159,12 +167,12 @@ def Data.ofScs [IntCast K] (l : List (Sc K)) : Option (Data K) :=
   match l with
   | [] => some (.flt [])
   | _ =>
-    match l.mapM Sc.int? with
+    match mapOpt Sc.int? l with
     | some is => some (.int is)
     | none =>
-      match l.mapM Sc.num? with
+      match mapOpt Sc.num? l with
       | some xs => some (.flt xs)
-      | none => (l.mapM Sc.str?).map .str
+      | none => (mapOpt Sc.str? l).map .str
 
 def leaves? : List (DM K) → Option (List (Sc K))
   | [] => some []
@@ -218,23 +226,38 @@ def unitEntry (units : Option String) : List (String × DM K) :=
   | none => []
   | some u => [("unit", .leaf (.str u))]
 
+/-- the `value` entry: a scalar for rank 0, the flat list otherwise. -/
+def valueNode (sh : List Nat) (scs : List (Sc K)) : Option (DM K) :=
+  match sh with
+  | [] =>
+    match scs with
+    | [x] => some (.leaf x)
+    | _ => none
+  | _ :: _ => some (.list (scs.map .leaf))
+
+/-- the `shape` entry, written for rank ≥ 2 only. -/
+def shapeEntry (sh : List Nat) : List (String × DM K) :=
+  match sh with
+  | [] => []
+  | [_] => []
+  | n :: m :: r => [("shape", .list (((n :: m :: r).map (fun (k : Nat) => (Sc.int (Int.ofNat k) : Sc K))).map .leaf))]
+
+/-- `get_in_units(value, units)` when `units` is given. -/
+def writeData [Div K] [One K] [IntCast K] (fac : String → K) (units : Option String) (d : Data K) :
+    Option (Data K) :=
+  match units with
+  | none => some d
+  | some u => d.divBy (factor fac u)
+
 /-- `uc.model(value, units)`; `none` is a raised exception. -/
 def ucModel [Div K] [One K] [IntCast K] (fac : String → K) (units : Option String) (a : Arr K) :
     Option (DM K) :=
-  let d? := match units with
-    | none => some a.data
-    | some u => a.data.divBy (factor fac u)
-  match d? with
+  match writeData fac units a.data with
   | none => none
   | some d =>
-    match a.shape with
-    | [] =>
-      match d.toScs with
-      | [x] => some (.node (("value", .leaf x) :: unitEntry units))
-      | _ => none
-    | [_] => some (.node (("value", .list (d.toScs.map .leaf)) :: unitEntry units))
-    | sh => some (.node (("value", .list (d.toScs.map .leaf))
-                     :: ("shape", .list (sh.map (fun (n : Nat) => .leaf (.int (Int.ofNat n))))) :: unitEntry units))
+    match valueNode a.shape d.toScs with
+    | none => none
+    | some v => some (.node (("value", v) :: (shapeEntry a.shape ++ unitEntry units)))
 
 /-- the `unit` entry of a term: `term.get('unit', None)`. -/
 def unitOf? (t : DM K) : Option (Option String) :=
@@ -351,7 +374,7 @@ def propModel [Div K] [One K] [IntCast K] (fac : String → K) (a : AtomsM K)
 /-- `Atoms.model(prop_unit=pu)` (`pu` is a dict: its keys are distinct). -/
 def atomsModel [Div K] [One K] [IntCast K] (fac : String → K) (pu : List (String × Option String))
     (a : AtomsM K) : Option (DM K) :=
-  match pu.mapM (propModel fac a) with
+  match mapOpt (propModel fac a) pu with
   | none => none
   | some ps =>
     some (.node [("atoms", .node (("natoms", .leaf (.int a.natoms)) :: appendAll "property" ps))])
@@ -398,7 +421,7 @@ def atomsOfProps [OfNat K 0] (natoms : Nat) (props : List (String × Arr K)) : O
   match nA?, nP? with
   | some nA, some nP =>
     if (nA = 1 ∨ nA = natoms) ∧ (nP = 1 ∨ nP = natoms) then
-      match bcast natoms atype, bcast natoms pos, rest.mapM (fun e => (bcast natoms e.2).map (fun a => (e.1, a))) with
+      match bcast natoms atype, bcast natoms pos, mapOpt (fun e => (bcast natoms e.2).map (fun a => (e.1, a))) rest with
       | some at', some pos', some rest' =>
         match at'.data.minInt? with
         | some mn => if mn < 1 then none else some ⟨natoms, ("atype", at') :: ("pos", pos') :: rest'⟩
@@ -415,7 +438,7 @@ def atomsRead [Mul K] [One K] [OfNat K 0] [IntCast K] (fac : String → K) (t : 
     match m.get? "natoms" with
     | some (.leaf (.int n)) =>
       if n < 0 then none else
-      match (m.aslist "property").mapM (propRead fac) with
+      match mapOpt (propRead fac) (m.aslist "property") with
       | none => none
       | some ps => atomsOfProps n.toNat (ps.foldl (fun d e => dictSet d e.1 e.2) [])
     | _ => none
@@ -478,7 +501,7 @@ def massLeaf : Option K → DM K
 def systemModel [Add K] [Sub K] [Mul K] [Div K] [One K] [IntCast K]
     (fac : String → K) (boxUnit : Option String) (pu : List (String × Option String))
     (s : SystemM K) : Option (DM K) :=
-  match boxModel fac boxUnit s.box, pu.mapM (sysPropModel fac s) with
+  match boxModel fac boxUnit s.box, mapOpt (sysPropModel fac s) pu with
   | some (.node [("box", bm)]), some ps =>
     let masses := if s.masses.any Option.isSome then s.masses.map massLeaf else []
     some (.node [("atomic-system", .node (
@@ -523,8 +546,8 @@ def systemRead [Add K] [Sub K] [Mul K] [Div K] [Neg K] [One K] [OfNat K 0] [IntC
   | some m =>
     match boxRead fac eps m, atomsRead fac m, m.get? "periodic-boundary-condition", m.get? "atoms" with
     | some box, some atoms, some (.list pl), some am =>
-      match pl.mapM pbcOf?, (m.aslist "atom-type-symbol").mapM symOf?,
-            (m.aslist "atom-type-mass").mapM massOf?, atoms.natypes with
+      match mapOpt pbcOf? pl, mapOpt symOf? (m.aslist "atom-type-symbol"),
+            mapOpt massOf? (m.aslist "atom-type-mass"), atoms.natypes with
       | some pbc, some syms, some masses, some nat =>
         if pbc.length ≠ 3 then none else
         let syms' := fillNone syms nat
@@ -532,8 +555,8 @@ def systemRead [Add K] [Sub K] [Mul K] [Div K] [Neg K] [One K] [OfNat K 0] [IntC
         if natS < masses.length then none else
         let masses' := fillNone masses natS
         let sc := scaledNames am
-        match atoms.props.mapM (fun e =>
-            if sc.contains e.1 then (mapPositions box.relToCart e.2).map (fun a => (e.1, a)) else some e) with
+        match mapOpt (fun e =>
+            if sc.contains e.1 then (mapPositions box.relToCart e.2).map (fun a => (e.1, a)) else some e) atoms.props with
         | some props' => some ⟨box, pbc, syms', masses', ⟨atoms.natoms, props'⟩⟩
         | none => none
       | _, _, _, _ => none
